@@ -34,6 +34,10 @@ CHECKS['C08'] = ('E4+E2', 'model_checking',
     'Part 1: every program (chain started->c1..cL, L<=3; stop action in any handler; 9 stop actions: stop() with/without codes, SystemExit with/without codes, KeyboardInterrupt; next link fired before/after the action; one link optionally fired from a generator step; extra events around the action) runs under the real run() twice on the same manager, with stop() on the stopped manager (also with an event queued) in between; per cycle exactly one started/stopped, everything fired is dispatched and no queue residue when run() ends, the code reaches the caller of run(). Part 2 (E2): stop()/stop(3) issued by a second thread, every interleaving with <=k pre-emptions (quick k<=1, one config k<=2; thorough k<=2/3): run() ends, stopped dispatched exactly once, nothing fired is left, code propagates.',
     'Trusted: as for C03 (line atomicity, doubles); exit code 0 may surface as a normal return; the idle loop is kept awake by a zero-time generate_events handler.',
     'bounded-exhaustive program enumeration under the real run() + pre-emption-bounded schedule exploration for the threaded stop', 'DESIGN.md 6/C08')
+CHECKS['C07'] = ('E1', 'model_checking',
+    'Explicit-state BFS over histories of register / unregister / probe fire / broadcast fire / single ticks of any root on pools of 3-4 real components, started from several initial forests (flat, chain of 2, chain of 3, chain of 4); canonical state = forest + pending flags + per-root queue contents + handler caches. After every operation: parent/child links agree, no cycles, root = top of tree; after a final drain: one registered/unregistered event object per completed operation and never twice to one component, probes queued on a detached component are delivered exactly once after it is registered, no probe is delivered twice, and nothing reaches a component that was not in the firing tree between fire and dispatch (detached subtrees receive nothing further).',
+    'Trusted: preconditions read from the real object graph at operation boundaries; eventual completion of every requested unregistration is not judged (statement does not promise it) - counted in evidence.',
+    'explicit-state BFS over operation histories of real component trees with canonical-state dedup', 'DESIGN.md 6/C07')
 NOT_YET = {}
 def main():
     props = [json.loads(l) for l in open(os.path.join(HERE, 'properties.jsonl'))]
